@@ -328,8 +328,13 @@ def eval_handlers(repo, driver, items):
             if len(m) != 5:
                 exp = 'bad-op'
             else:
-                mv, _pinned, mb, _mc, mwf = m
+                mv, _pinned, mb, mc, mwf = m
                 exp = mv if mv != 'A' else ('A+' if mb == '1' else 'A-')
+                if mc == '1' and verdict == f'R{INVALID_ARGS}':
+                    # the recorded known-finding family (`collides`): the model mirrors the
+                    # code's acceptance, but an implementation that refuses these unbindable
+                    # calls satisfies the property - never a disagreement
+                    exp = verdict
                 if wrap == 'fake':
                     # only the verdict class is comparable (the fake object accepts any call)
                     exp = 'A' if mv == 'A' else mv
@@ -574,22 +579,11 @@ def run(ctx):
     items = [parse_corpus_line(l) for l in corpus_lines(ctx.verif, 'C19')]
     run_items(ctx, res, items)
     res['scopes']['corpus'] = len(items)
-    # handlers of the repo's own test, no handler, container kinds
-    ns = {}
-    exec(REPO_TEST_HANDLERS, ns)
-    own = []
-    for name in ('add_3', 'add_many', 'echo_2', 'kwargs', 'both'):
-        own.append(('plain', F.sig_of(ns[name]), None))
-    own.append(('none', [], [('P', 0), ('T', 2), ('K', ()), ('K', ('a',))]))
-    run_items(ctx, res, own)
-    res['scopes']['repo_test_handlers'] = len(own) - 1
-    out_of_scope_probes(ctx, res)
-    # (b) ill-formed parameter lists: the model's TypeError / AttributeError paths
     thorough = ctx.tier == 'thorough'
-    bad = ill_formed_items(4 if ctx.deep else 3)
-    run_items(ctx, res, bad, parallel=ctx.deep)
-    res['scopes']['ill_formed_signatures'] = len(bad)
-    # (c) exhaustive small scopes, smallest first; stop growing once something failed
+    # no handler at all (list, tuple, dict)
+    run_items(ctx, res, [('none', [], [('P', 0), ('T', 2), ('K', ()), ('K', ('a',))])])
+    # (b) exhaustive small scopes, smallest first; stop growing once something failed that is
+    # not a recorded known finding
     maxn = 6 if thorough else 5 if ctx.deep else 4
     done = -1
     nsig = 0
@@ -602,7 +596,7 @@ def run(ctx):
         run_items(ctx, res, items, parallel=True)
         done = n
     extra = {}
-    if ctx.deep and not unlisted_failure(ctx, res):
+    if not unlisted_failure(ctx, res):
         sigs = list(F.all_signatures(maxn + 1, NAMES))
         extra = {'parameters': maxn + 1, 'signatures': len(sigs), 'wrappers': ['plain', 'method']}
         run_items(ctx, res, [(w, s, None) for s in sigs for w in ('plain', 'method')],
@@ -611,14 +605,27 @@ def run(ctx):
                                    'wrappers': ['plain', 'method', 'ppos1', 'ppos2', 'mpos1',
                                                 'pkw:first', 'pkw:last'],
                                    'one_size_more_plain_and_method_only': extra}
+    # handlers of the repo's own test (tests/test_jsonrpc.py::test_handler_invocation)
+    ns = {}
+    exec(REPO_TEST_HANDLERS, ns)
+    own = [('plain', F.sig_of(ns[name]), None)
+           for name in ('add_3', 'add_many', 'echo_2', 'kwargs', 'both')]
+    run_items(ctx, res, own)
+    res['scopes']['repo_test_handlers'] = len(own)
+    out_of_scope_probes(ctx, res)
+    failed = unlisted_failure(ctx, res)
+    # (c) ill-formed parameter lists: the model's TypeError / AttributeError paths
+    bad = ill_formed_items(2 if failed else 4 if ctx.deep else 3)
+    run_items(ctx, res, bad, parallel=ctx.deep)
+    res['scopes']['ill_formed_signatures'] = len(bad)
     # (d) seeded random larger signatures, mostly-valid calls + odd names
-    ngen = 6000 if ctx.deep else 1200
+    ngen = 300 if failed else 6000 if ctx.deep else 1200
     gen = []
     while len(gen) < ngen:
         it = random_item(rng)
         if it is not None:
             gen.append(it)
-    run_items(ctx, res, gen, parallel=ctx.deep)
+    run_items(ctx, res, gen, parallel=ctx.deep and not failed)
     res['scopes']['generated_handlers'] = ngen
     res._nontrivial = set(range(res.pop('_nontrivial', 0)))
     return res.finish(RULE, exhaustive=(done == maxn))
@@ -627,6 +634,8 @@ def run(ctx):
 def replay(ctx, case):
     if 'case' in case and isinstance(case['case'], dict):
         case = case['case']
+    elif 'wrap' not in case and case.get('disagreements'):
+        case = case['disagreements'][0]['case']
     res = Results()
     run_items(ctx, res, [case_to_item(case)])
     res.sample(case)
